@@ -417,7 +417,8 @@ fn vk_c09_decompose_check(w: &mut WaitingState<'static, u8>, group: &'static Cho
     (ne, len)
 }
 
-// @harness name=c09_k3_decompose prop=C09 tier=thorough timeout=3000
+// @harness name=c09_k3_decompose prop=PARKED tier=thorough timeout=3000
+// @note runs out of memory with 3 fully symbolic queued events; the 2-press version c09_k3_decompose_small is the registered one
 // @encodes WaitingState::decompose_chord_into_action_queue
 // @bounds group {ab->X, c->Z, b->W}; starting key symbolic; queue of <= 3 symbolic events over chord keys + 1 other; delay = 0
 // @assumes delay == 0
